@@ -638,6 +638,8 @@ struct Exec {
         std::string vprop = (trunc == 1 && c18_reader) ? "C18" : prop;
         count("reader_calls_" + reader, (uint64_t)repeat);
         if (trunc == 1) count("calls_on_truncated", (uint64_t)repeat);
+        if (trunc == 0) count("calls_on_complete", (uint64_t)repeat);
+        if (trunc == -1) count("calls_unclassified", (uint64_t)repeat);
 
         for (int it = 0; it < repeat; it++) {
             ErrorCode ec = ErrorCode::NoError;
@@ -1605,8 +1607,18 @@ struct Exec {
         if (!d.ok || !d.strict_ok) {
             viol("C17", "session_file_malformed", "the file written by a GdsWriter session is rejected by the independent decoder: " + d.error, ctx);
         } else {
+            // every BGNSTR written by write_cell carries the timestamp of the session, like BGNLIB
+            // (raw cells keep the bytes of their source, so only files without them are judged)
+            if (finfo[s.file].ts_known && session_raw_names[w].empty()) {
+                bool ok_ts = true;
+                for (int i = 0; i < 12; i++) ok_ts = ok_ts && d.lib_ts[i] == finfo[s.file].ts[i % 6];
+                for (auto& t : d.str_ts)
+                    for (int i = 0; i < 12; i++) ok_ts = ok_ts && t[i] == finfo[s.file].ts[i % 6];
+                if (!ok_ts)
+                    viol(prop == "C03" ? "C03" : "C17", "session_timestamp", "BGNLIB/BGNSTR of a GdsWriter session do not all carry the session's timestamp " + ts_str(finfo[s.file].ts), ctx);
+            }
             if (session_src_canon.count(w)) compare_copied(s.file, session_raw_names[w], session_src_canon[w], ctx);
-            if (s.model >= 0 && !session_cell_names[w].empty() && s.max_points <= 4) {
+            if (prop == "C17" && s.model >= 0 && !session_cell_names[w].empty() && s.max_points <= 4) {
                 Expect E = expect_gds(s.model, 0);
                 canon::CLib got;
                 ErrorCode ec = ErrorCode::NoError;
